@@ -309,7 +309,38 @@ pub fn random_message(rng: &mut Rng) -> Vec<u8> {
 }
 
 /// Byte-level nasties that no bencode writer would produce.
+/// Error messages (and queries) whose text fields are long and carry multi-byte UTF-8 characters that
+/// straddle the cut points a decoder might truncate at (31/32, 63/64, 127/128, 255/256, ...), or
+/// bytes that are not UTF-8 at all.
+pub fn text_bomb(rng: &mut Rng) -> Vec<u8> {
+    let cut = *rng.pick(&[16usize, 32, 64, 100, 120, 128, 200, 255, 256, 500, 512, 1000, 1024]);
+    let ch: &[u8] = *rng.pick(&[&b"\xc3\xa9"[..], &b"\xe2\x82\xac"[..], &b"\xf0\x9f\x98\x80"[..], &b"\xff\xfe"[..], &b"\xc3"[..]]);
+    // the character starts 1..len bytes before the cut
+    let before = cut.saturating_sub(rng.usize(1, ch.len()));
+    let mut text = vec![b'a'; before];
+    text.extend_from_slice(ch);
+    let tail = rng.usize(0, 40);
+    for _ in 0..tail {
+        if rng.chance(1, 4) {
+            text.extend_from_slice(ch);
+        } else {
+            text.push(b'b');
+        }
+    }
+    let tid: Vec<u8> = if rng.chance(1, 2) { b"aa".to_vec() } else { (rng.range(0, 80) as u32).to_be_bytes().to_vec() };
+    let code = *rng.pick(&[201i64, 202, 203, 204, 205, 206, 207, 301, 302, 0, -1]);
+    let msg = match rng.below(4) {
+        0 => Value::dict(vec![("t", Value::Bytes(tid)), ("y", Value::str("q")), ("q", Value::Bytes(text)), ("a", Value::dict(vec![("id", Value::Bytes(vec![7u8; 20]))]))]),
+        1 => Value::dict(vec![("t", Value::Bytes(tid)), ("y", Value::str("e")), ("v", Value::Bytes(text.clone())), ("e", Value::List(vec![Value::Int(code), Value::Bytes(text)]))]),
+        _ => Value::dict(vec![("t", Value::Bytes(tid)), ("y", Value::str("e")), ("e", Value::List(vec![Value::Int(code), Value::Bytes(text)]))]),
+    };
+    msg.encode()
+}
+
 pub fn template(rng: &mut Rng) -> Vec<u8> {
+    if rng.chance(1, 4) {
+        return text_bomb(rng);
+    }
     let templates: Vec<Vec<u8>> = vec![
         b"d1:ad2:id20:abcdefghij0123456789e1:q4:ping1:t2:aa1:y1:qe".to_vec(),
         b"d1:ad2:id20:abcdefghij0123456789e1:q4:ping1:t2:aa1:y1:q".to_vec(),
